@@ -69,6 +69,28 @@ def parseSub (t : String) : Option KSub :=
 def parseSubs (t : String) : Option (List KSub) :=
   if t = "-" then some [] else (splitOn1 t ';').mapM parseSub
 
+/-- `kerx drv` infos: gid:mask:class:di, class 0 none / 1 base / 2 ligature / 3 mark -/
+def parseKxInfo (t : String) : Option KInfo :=
+  match nats (splitOn1 t ':') with
+  | some [g, m, cls, di] => some { gid := g, mask := m, mark := cls = 3, di := di ≠ 0 }
+  | _ => none
+
+def parseKxInfos (t : String) : Option (Array KInfo) :=
+  if t = "-" then some #[] else ((splitOn1 t ',').mapM parseKxInfo).map List.toArray
+
+/-- `kerx drv` subtable: v:h:c:format:pairs — the pairs are every non-zero `glyphs_kerning` value of the subtable
+    (sorted by key), whatever its format -/
+def parseXSub (t : String) : Option XSub :=
+  match splitOn1 t ':' with
+  | [v, h, c, f, ps] => do
+      let pairs ← parsePairs ps
+      pure { isVariable := v = "1", horizontal := h = "1", crossStream := c = "1", format := (← f.toNat?),
+             kernOf := fmt0Kerning pairs }
+  | _ => none
+
+def parseXSubs (t : String) : Option (List XSub) :=
+  if t = "-" then some [] else (splitOn1 t ';').mapM parseXSub
+
 def b01 (b : Bool) : String := if b then "1" else "0"
 
 /-- the model side of `gp sub`: `kind-specific tokens` -/
@@ -228,7 +250,7 @@ def handlePos (d finish infos : String) (rest : List String) : Option String := 
 
 end pos
 
-def cmds : List String := ["gp", "kern"]
+def cmds : List String := ["gp", "kern", "kerx"]
 
 def handle (ts : List String) : Option String :=
   match ts with
@@ -277,6 +299,16 @@ def handle (ts : List String) : Option String :=
       let (_, ps) := splitBar rest
       let p ← parsePoss ps
       match kernDriver subs (req = "1") mask d (fun _ b => b) { infos, pos := p, len := infos.size } with
+      | .ok b =>
+        let gs := joinNats (b.infos.toList.map (·.gid)) ","
+        pure s!"ok {b01 b.attach} {if gs.isEmpty then "-" else gs} {fmtPoss b.pos}"
+      | .error e => pure (errStr e)
+  | "kerx" :: "drv" :: _hex :: d :: _feat :: mask :: req :: subs :: infos :: rest => do
+      let d ← parseDir d; let mask ← mask.toNat?
+      let subs ← parseXSubs subs; let infos ← parseKxInfos infos
+      let (_, ps) := splitBar rest
+      let p ← parsePoss ps
+      match kerxDriver subs (req = "1") mask d (fun _ b => b) { infos, pos := p, len := infos.size } with
       | .ok b =>
         let gs := joinNats (b.infos.toList.map (·.gid)) ","
         pure s!"ok {b01 b.attach} {if gs.isEmpty then "-" else gs} {fmtPoss b.pos}"
